@@ -77,6 +77,16 @@ Proof. repeat split; reflexivity. Qed.
 Lemma merge_attrs_by_value_current : merge_copies = true.
 Proof. reflexivity. Qed.
 
+(* in-place tuples (`field <:` + indented fields): the type path is extended by the field name AS STORED (already
+   unescaped by EnterField - no second unescape), leaving the block restores the field map of the enclosing type
+   whether it is a !type or a !table, the array form finds its item under the unescaped name, and the nested names
+   are cut off the field-name stack when the block ends (so that ExitTable's key walk sees the type's own fields
+   only). These are what Denote.ntuple / nnames / ditems assume (false on a tree without fixes C02-7..10). *)
+Lemma inplace_tuple_current :
+  inplace_push_as_is = true /\ inplace_exit_restores_any_parent = true /\ inplace_array_name_unescaped = true /\
+  inplace_exit_cuts_names = true.
+Proof. repeat split; reflexivity. Qed.
+
 (* ================================================================== 2. member order *)
 Definition same_map {V} (m1 m2:list (string * V)) : Prop := forall k, aget k m1 = aget k m2.
 
